@@ -124,7 +124,31 @@ func CheckSource(c *core.Check, src string, vec map[string]any) bool {
 }
 
 // Configs embeds an E1 expression into configuration texts.
+func hasHeredoc(n *e1.Node) bool {
+	if n.K == "tpl" && (n.S == "h" || n.S == "hf") {
+		return true
+	}
+	for _, s := range n.Sub {
+		if hasHeredoc(s) {
+			return true
+		}
+	}
+	return false
+}
+
 func Configs(n *e1.Node) []string {
+	if hasHeredoc(n) {
+		x := e1.Render(n, e1.Layout{})
+		if !(n.K == "tpl" && (n.S == "h" || n.S == "hf")) {
+			// the newline after a closing heredoc marker would end the attribute: inside
+			// parentheses newlines are insignificant
+			x = "(" + x + ")"
+		}
+		if !strings.HasSuffix(x, "\n") {
+			x += "\n"
+		}
+		return []string{"a = " + x + "b = 1\n", "blk \"l\" {\n    a   =   " + x + "  b = 2 # c\n}\n"}
+	}
 	if Brief {
 		return []string{"a = " + e1.Render(n, e1.Layout{Mode: 0}) + "\n",
 			"blk \"l\" {\n  # lead\n  a   =   " + e1.Render(n, e1.Layout{Mode: 4}) + " # trailing\n      bb = [\n1,\n  2]\n}\n"}
